@@ -859,6 +859,10 @@ func (p *Parser) parseType() (ast.Type, bool, error) {
 // parseSingleType parses a single type (without union handling) with optional type parameter context
 // This is used within union type parsing to avoid nested unions
 func (p *Parser) parseSingleType(typeParamNames []string) (ast.Type, error) {
+	defer p.leaveNested()
+	if err := p.enterNested(); err != nil {
+		return nil, err
+	}
 	var baseType ast.Type
 
 	// Check for function type: (T) -> U or (int, string) -> bool
@@ -975,6 +979,10 @@ func (p *Parser) parseSingleType(typeParamNames []string) (ast.Type, error) {
 // parseTypeWithContext parses a type annotation with optional type parameter context
 // The typeParamNames parameter contains names of type parameters in scope (for generic definitions)
 func (p *Parser) parseTypeWithContext(typeParamNames []string) (ast.Type, bool, error) {
+	defer p.leaveNested()
+	if err := p.enterNested(); err != nil {
+		return nil, false, err
+	}
 	var baseType ast.Type
 	required := false
 
@@ -1946,6 +1954,10 @@ func (p *Parser) parseRateLimit() (*ast.RateLimit, error) {
 
 // parseStatement parses a statement
 func (p *Parser) parseStatement() (ast.Statement, error) {
+	defer p.leaveNested()
+	if err := p.enterNested(); err != nil {
+		return nil, err
+	}
 	switch p.current().Type {
 	case QUESTION:
 		// ? validate_fn(args)                 -- validation assertion
@@ -2269,6 +2281,10 @@ func (p *Parser) parseReassignment() (ast.Statement, error) {
 
 // parseIfStatement parses an if statement: if condition { ... } else { ... }
 func (p *Parser) parseIfStatement() (ast.Statement, error) {
+	defer p.leaveNested()
+	if err := p.enterNested(); err != nil {
+		return nil, err
+	}
 	// Consume "if" keyword
 	_, err := p.expectIdent()
 	if err != nil {
@@ -2619,6 +2635,24 @@ func (p *Parser) parseSwitchStatement() (ast.Statement, error) {
 	}, nil
 }
 
+// enterNested counts one more level of syntactic nesting and reports an error once the input
+// nests deeper than maxParseDepth. Every production that can contain itself without passing
+// through parseExpr (statements, else-if chains, unary chains, types, patterns) calls it, so that
+// no input can drive the parser's recursion - and with it the goroutine stack - without bound.
+// Callers register `defer p.leaveNested()` first.
+func (p *Parser) enterNested() error {
+	p.depth++
+	if p.depth > maxParseDepth {
+		return fmt.Errorf("maximum nesting depth exceeded (%d levels)", maxParseDepth)
+	}
+	return nil
+}
+
+// leaveNested undoes enterNested.
+func (p *Parser) leaveNested() {
+	p.depth--
+}
+
 // parseExpr parses an expression with operator precedence
 func (p *Parser) parseExpr() (ast.Expr, error) {
 	p.depth++
@@ -2802,6 +2836,10 @@ func (p *Parser) currentCommandDefaultBinaryOp() (ast.BinOp, int) {
 
 // parseUnary parses unary expressions (!, -)
 func (p *Parser) parseUnary() (ast.Expr, error) {
+	defer p.leaveNested()
+	if err := p.enterNested(); err != nil {
+		return nil, err
+	}
 	// Check for unary NOT operator
 	if p.check(BANG) {
 		tok := p.current()
@@ -5083,6 +5121,10 @@ func (p *Parser) parseMatchExpr() (ast.Expr, error) {
 
 // parsePattern parses a pattern for match expressions
 func (p *Parser) parsePattern() (ast.Pattern, error) {
+	defer p.leaveNested()
+	if err := p.enterNested(); err != nil {
+		return nil, err
+	}
 	switch p.current().Type {
 	case INTEGER:
 		// Literal integer pattern
